@@ -128,16 +128,60 @@ macro_rules! erase_sync {
     };
 }
 
+/// How a `Rec` node is realised (thread-local, set by the engine around a build).
+#[derive(Clone, Copy, Debug, PartialEq, Eq)]
+pub enum RecMode {
+    /// `recursive(|me| ..)`
+    Direct,
+    /// `Recursive::declare()` + `define(..)`
+    Indirect,
+    /// no `Recursive` at all: the self-reference expanded k times with plain combinators;
+    /// level 0 is a parser that always fails with the message `UNROLL_FLOOR`
+    Unroll(usize),
+}
+pub const UNROLL_FLOOR: &str = "U0 reached: unrolling too shallow (harness)";
+
+thread_local! {
+    static REC_MODE: std::cell::Cell<RecMode> = const { std::cell::Cell::new(RecMode::Direct) };
+}
+pub fn set_rec_mode(m: RecMode) {
+    REC_MODE.with(|c| c.set(m));
+}
+pub fn rec_mode() -> RecMode {
+    REC_MODE.with(|c| c.get())
+}
+
 macro_rules! rec_boxed {
     ($build:ident, $cx:expr, $body:expr) => {{
         let body: &G = $body;
-        let r = recursive(|me: Recursive<Direct<'a, 'a, I, Val, Ex<'a, I>>>| {
-            $cx.rec.push(Parser::boxed(me));
-            let b = $build(body, $cx);
-            $cx.rec.pop();
-            b
-        });
-        Parser::boxed(r)
+        match rec_mode() {
+            RecMode::Direct => {
+                let r = recursive(|me: Recursive<Direct<'a, 'a, I, Val, Ex<'a, I>>>| {
+                    $cx.rec.push(Parser::boxed(me));
+                    let b = $build(body, $cx);
+                    $cx.rec.pop();
+                    b
+                });
+                Parser::boxed(r)
+            }
+            RecMode::Indirect => {
+                let mut r = Recursive::declare();
+                $cx.rec.push(Parser::boxed(r.clone()));
+                let b = $build(body, $cx);
+                $cx.rec.pop();
+                r.define(b);
+                Parser::boxed(r)
+            }
+            RecMode::Unroll(k) => {
+                let mut u: BP<'a, I> = Parser::boxed(empty().try_map(|(), span: I::Span| Err::<Val, _>(Rich::custom(span, UNROLL_FLOOR))));
+                for _ in 0..k {
+                    $cx.rec.push(u);
+                    u = $build(body, $cx);
+                    $cx.rec.pop();
+                }
+                u
+            }
+        }
     }};
 }
 macro_rules! rec_none {
